@@ -835,7 +835,7 @@ func main() {
 	// reference Bech32 encoder): every witness version 0..31 x both checksum variants x
 	// every data length x fill patterns (zero / all-ones / mixed: covers zero and
 	// non-zero padding, 5+ leftover bits, program lengths 0..50) x hrp x case.
-	for _, hrp := range []string{"bc", "tb", "tc", "ltc"} {
+	for _, hrp := range []string{"bc", "tb", "tc", "ltc", "bc1q", "tb1p"} {
 		for _, enc := range []refaddr.Encoding{refaddr.Bech32, refaddr.Bech32m} {
 			hrp, enc := hrp, enc
 			add("segwit-structural", func(st *stats) {
@@ -882,6 +882,26 @@ func main() {
 			})
 		}
 	}
+	// ---- F3c: every other value of each of the four Base58Check checksum bytes
+	for _, sd := range seeds[:6] {
+		sd := sd
+		add("base58-checksum-bytes", func(st *stats) {
+			full, err := refaddr.B58Decode(sd)
+			if err != nil || len(full) != 25 {
+				ev.HarnessError("seed %q", sd)
+			}
+			for pos := 21; pos < 25; pos++ {
+				for v := 0; v < 256; v++ {
+					if byte(v) == full[pos] {
+						continue
+					}
+					m := append([]byte{}, full...)
+					m[pos] = byte(v)
+					evalAddr(st, "base58-checksum-bytes", refaddr.B58Encode(m))
+				}
+			}
+		})
+	}
 	// generic Bech32 strings from the BIP lists: mutations judged by the generic decoder
 	lits, err := refaddr.GoLiterals(filepath.Join(ev.Repo(), "lib/others/bech32/bech32_test.go"))
 	if err != nil {
@@ -919,7 +939,12 @@ func main() {
 	short := strings.ToLower(seeds[12]) // bc1sw50qgdz25j
 	multi = append(multi, ms{short, 2}, ms{strings.ToUpper(short), 2})
 	if r.Thorough() {
-		multi = append(multi, ms{seeds[6], 2}, ms{seeds[7], 2}, ms{seeds[10], 2}, ms{seeds[8], 2}, ms{seeds[13], 2}, ms{short, 3})
+		for _, sd := range seeds[6:] {
+			if strings.ToLower(sd) != short {
+				multi = append(multi, ms{sd, 2})
+			}
+		}
+		multi = append(multi, ms{short, 3}, ms{strings.ToUpper(short), 3})
 	} else {
 		multi = append(multi, ms{seeds[6], 2})
 	}
@@ -1015,6 +1040,16 @@ func main() {
 			add("wif-mutations", func(st *stats) {
 				evalWIF(st, "wif-seed", w)
 				mutants(w, func(kind, m string) { evalWIF(st, "wif-"+kind, m) })
+				full, _ := refaddr.B58Decode(w)
+				for pos := len(full) - 4; pos < len(full); pos++ {
+					for v := 0; v < 256; v++ {
+						if byte(v) != full[pos] {
+							m := append([]byte{}, full...)
+							m[pos] = byte(v)
+							evalWIF(st, "wif-checksum-bytes", refaddr.B58Encode(m))
+						}
+					}
+				}
 			})
 		}
 	}
